@@ -196,6 +196,14 @@ def check_units(prog, rep, K):
                         else:
                             rep.unrec("R2-units", construct, "incoming values %s not modelled" % txt[:80])
                     good = False
+        # every retained taxon keeps ITS raw values: values and taxon labels are edited with one index operand
+        idx_m = {l[3] for l in leaves(mat) if is_term(l, "np") and l[3] is not None}
+        idx_t = {l[3] for fld_ in ("taxa", "taxa_grp") for l in leaves(o.kw.get(fld_, ABSENT)) if is_term(l, "np") and l[3] is not None}
+        if idx_m and idx_t and idx_m != idx_t:
+            rep.violate("R2-units", construct, "values are edited with %s but the taxon labels with %s: a retained label is paired with another taxon's values"
+                        % (", ".join(sorted(term_str(i)[:50] for i in idx_m)), ", ".join(sorted(term_str(i)[:50] for i in idx_t))), where(f),
+                        "one index operand for values and labels", ", ".join(sorted(term_str(i)[:50] for i in idx_m)))
+            good = False
         tr = o.kw.get("trait", ABSENT)
         if tr not in (("self", "trait"), ("obj", "mats[0]", "trait")) and op != "concat":
             rep.violate("R2-units", construct, "trait names are not carried over (%s)" % term_str(tr)[:40], where(f), "trait=self.trait", term_str(tr)[:40])
